@@ -90,6 +90,55 @@ def check_couple(ctx: Context, rep, rule: str) -> None:
 
 
 
+def may_be_true(fn, test: ast.AST, written: int, limit: int) -> bool:
+    """Can `test` be true when the counter is `written` and the limit is
+    `limit`, for some value of every other condition? (single-definition
+    locals expanded)"""
+    from sa.norm import expand
+    e = expand(fn, test)
+
+    def val(x):
+        if is_counter(x):
+            return written
+        if is_limit(x):
+            return limit
+        if isinstance(x, ast.Constant) and isinstance(x.value, (int, float)):
+            return x.value
+        return None
+
+    def mt_mf(x):
+        """(may be true, may be false)"""
+        if isinstance(x, ast.BoolOp):
+            parts = [mt_mf(v) for v in x.values]
+            if isinstance(x.op, ast.And):
+                return all(p[0] for p in parts), any(p[1] for p in parts)
+            return any(p[0] for p in parts), all(p[1] for p in parts)
+        if isinstance(x, ast.UnaryOp) and isinstance(x.op, ast.Not):
+            t, f_ = mt_mf(x.operand)
+            return f_, t
+        if isinstance(x, ast.Call) and isinstance(x.func, ast.Name) and \
+                x.func.id in ("all", "any") and len(x.args) == 1 and \
+                isinstance(x.args[0], (ast.Tuple, ast.List)):
+            parts = [mt_mf(v) for v in x.args[0].elts]
+            if x.func.id == "all":
+                return all(p[0] for p in parts), any(p[1] for p in parts)
+            return any(p[0] for p in parts), all(p[1] for p in parts)
+        if isinstance(x, ast.Compare) and len(x.ops) == 1:
+            a, b = val(x.left), val(x.comparators[0])
+            if a is not None and b is not None:
+                op = x.ops[0]
+                r = {ast.Gt: a > b, ast.GtE: a >= b, ast.Lt: a < b,
+                     ast.LtE: a <= b, ast.Eq: a == b,
+                     ast.NotEq: a != b}.get(type(op))
+                if r is not None:
+                    return r, not r
+        if is_counter(x):
+            return bool(written), not written
+        return True, True   # any other condition: adversary's choice
+
+    return mt_mf(e)[0]
+
+
 def run(ctx: Context, rep) -> None:
     rep.not_decided = (
         "that ShardInfo.number_of_examples equals what is in the file (C04); "
@@ -302,6 +351,18 @@ def run(ctx: Context, rep) -> None:
                            message="rollover guard may depend only on the "
                            f"size test and the metadata flag; extra: "
                            f"{sorted(extra)}")
+                    # the rollover never closes an EMPTY shard: with
+                    # written = 0 (limit >= 1) the guard is false whatever the
+                    # other conditions are (a rejected first write leaves a
+                    # labelled shard with no example)
+                    empty_closed = any(
+                        may_be_true(we, g.test, 0, lim) for lim in (1, 4))
+                    rep.ob("C10.close", not empty_closed, loc=f.loc(c),
+                           where=f.qualname,
+                           construct=f"written = 0: `{short(g.test, 70)}` can "
+                           f"be true: {empty_closed}",
+                           message="a shard is closed (and listed) by the "
+                           "rollover only when it holds at least one example")
                 else:
                     rep.ob("C10.close", False, loc=f.loc(c), where=f.qualname,
                            construct=short(c),
@@ -368,8 +429,24 @@ SELFTESTS = [
          old="            if shard_progress.written_examples > 0:\n",
          new="            if shard_progress.written_examples >= 1:\n"),
     dict(rule="C10.close", name="extra-rollover-condition", expect="fire", path=_P,
-         old="                metadata_changed):\n",
-         new="                metadata_changed or split == \"test\"):\n"),
+         old="            (metadata_changed and current_progress.written_examples > 0)):\n",
+         new="            (metadata_changed and current_progress.written_examples > 0) or split == \"test\"):\n"),
+    dict(rule="C10.close", name="empty-shard-closed-on-label-change",
+         expect="fire", path=_P,
+         old="            (metadata_changed and current_progress.written_examples > 0)):\n",
+         new="            metadata_changed):\n"),
+    dict(rule="C10.close", name="nonempty-truthiness-twin", expect="silent",
+         path=_P,
+         old="            (metadata_changed and current_progress.written_examples > 0)):\n",
+         new="            (metadata_changed and current_progress.written_examples)):\n"),
+    dict(rule="C10.close", name="nonempty-ge-1-twin", expect="silent",
+         path=_P,
+         old="            (metadata_changed and current_progress.written_examples > 0)):\n",
+         new="            (current_progress.written_examples >= 1 and metadata_changed)):\n"),
+    dict(rule="C10.close", name="nonempty-in-flag-twin", expect="silent",
+         path=_P,
+         old="            custom_metadata != previous_metadata,\n        ))\n",
+         new="            custom_metadata != previous_metadata,\n            current_progress.written_examples > 0,\n        ))\n"),
     dict(rule="C10.couple", name="reset-without-new-shard", expect="fire", path=_P,
          old="        # Write the current example and update counters.\n",
          new="        if custom_metadata is None:\n            current_progress.written_examples = 0\n        # Write the current example and update counters.\n"),
